@@ -180,10 +180,42 @@ def _canonical(ntracks, titles, idx2, data_last):
         lines.append("  TRACK %02d %s" % (t + 1, mode))
         if titles[t]:
             lines.append('    TITLE "Title %d"' % (t + 1))
-        lines.append("    INDEX 01 %02d:%02d:%02d" % (t, 2 * t, 3 * t))
-        if idx2[t]:
+        if idx2[t] == 2:
+            lines.append("    INDEX 00 %02d:%02d:%02d" % (t, 2 * t, 3 * t))          # pregap marker BEFORE index 01
+            lines.append("    INDEX 01 %02d:%02d:%02d" % (t, 2 * t, 3 * t + 2))
+        else:
+            lines.append("    INDEX 01 %02d:%02d:%02d" % (t, 2 * t, 3 * t))
+        if idx2[t] == 1:
             lines.append("    INDEX 02 %02d:%02d:%02d" % (t, 2 * t + 1, 0))
     return lines
+
+
+def _expected(ntracks, titles, idx2, data_last):
+    """the meaning of a canonical sheet, written down independently of the parser"""
+    tracks = []
+    for t in range(ntracks):
+        mode = "mode1/2352" if (data_last and t == ntracks - 1) else "audio"
+        if idx2[t] == 2:
+            idx = [(0, t, 2 * t, 3 * t), (1, t, 2 * t, 3 * t + 2)]
+        else:
+            idx = [(1, t, 2 * t, 3 * t)]
+        if idx2[t] == 1:
+            idx.append((2, t, 2 * t + 1, 0))
+        tracks.append((t + 1, mode, ("Title %d" % (t + 1)) if titles[t] else None, idx))
+    return ("disc.bin", tracks)
+
+
+def h_meaning(ntracks: int, t0: int, t1: int, t2: int, x0: int, x1: int, x2: int, data_last: int) -> int:
+    """
+    pre: 1 <= ntracks <= 3 and 0 <= t0 <= 1 and 0 <= t1 <= 1 and 0 <= t2 <= 1 and 0 <= x0 <= 2 and 0 <= x1 <= 2 and 0 <= x2 <= 2 and 0 <= data_last <= 1
+    post: _ == 1
+    """
+    CNT[0] += 1
+    ntracks, data_last = conc(ntracks, 1, 3), conc(data_last, 0, 1)
+    titles = [conc(v, 0, 1) for v in (t0, t1, t2)[:ntracks]] + [0] * (3 - ntracks)
+    idx2 = [conc(v, 0, 2) for v in (x0, x1, x2)[:ntracks]] + [0] * (3 - ntracks)
+    with untraced():
+        return 1 if _meaning(_canonical(ntracks, titles, idx2, data_last)) == _expected(ntracks, titles, idx2, data_last) else 0
 
 
 def _meaning(lines):
@@ -343,5 +375,7 @@ def obligations(tier, seed):
     for nt in (1, 2, 3):
         obs.append(dict(name=f"C17.recase/tracks={nt}", module="vf.props.c17", func="h_recase", extra_pre=[f"ntracks == {nt}"],
                         timeout=T, runs=RUNS, sym="casing pattern (none/all/even/odd lines), indentation and trailing blank style, sheet shape", bound=f"{nt} track(s)", stubs=[]))
+    obs.append(dict(name="C17.meaning", module="vf.props.c17", func="h_meaning", extra_pre=[], timeout=T, runs=RUNS,
+                    sym="tracks, TITLE presence, INDEX 00 / INDEX 02 presence per track, data track", bound="canonical sheets of 1..3 tracks", stubs=[]))
     obs.append(dict(name="C17.reject", module="vf.props.c17", func="h_reject", extra_pre=[], timeout=60, runs=RUNS, sym="case", bound="3 cases", stubs=["temp files", "detector stubs"]))
     return obs
